@@ -124,6 +124,7 @@ def FOpOk : FOp → Prop
   | .direct op => OpOk op
   | .allocConn _ _ _ _ rec _ _ => rec.length = 72
   | .disconnect _ => True
+  | .restart => True
 
 /-- One step of the specification "map (SI, shnum) → write-once byte array with an in-progress
     flag".  Handles (`wid`) are resolved to their key through the concrete writer table `s`.
@@ -164,5 +165,9 @@ def FSpecStep (s : Server) (a : Spec) (op : FOp) (a' : Spec) : Prop :=
     ∀ k, match getK k s.incoming with
       | some (w, _) => a' k = if (widsOfConn s c).contains w.wid then .absent else a k
       | none => a' k = a k
+  | .restart =>
+    ∀ k, a' k = match a k with
+      | .inProgress _ _ => .absent
+      | other => other
 
 end Tahoe.Storage.Imm
